@@ -931,4 +931,144 @@ theorem Decomp.separated {q : Quirks} {K : Kernel} {n a : Nat} {W : List AGate}
       rw [e, List.getElem?_append_right (by simp; omega)]
       rw [← h3]; congr 1; simp; omega
 
+/-! ## off the listed defects the code as it is equals the repaired code -/
+
+/-- the gate runs into a listed defect of the code as it is -/
+def trig (q : Quirks) (g : AGate) : Bool :=
+  (q.identityGateRaises && g.cls == .I) ||
+    (q.mctrlXSplits && match g.cls with | .MCtrl inner _ => inner == "X" | _ => false)
+
+theorem triggers_eq (q : Quirks) (gs : List AGate) : triggers q gs = gs.any (trig q) := rfl
+
+theorem isZB_congr {q : Quirks} {g : AGate} (h : trig q g = false) :
+    isZB q g.cls = isZB Quirks.none g.cls := by
+  rw [isZB_eq, isZB_eq]
+  unfold trig at h
+  cases hc : g.cls <;> simp_all [Quirks.none]
+  intro hx; simp_all
+
+theorem gateStep_congr {q : Quirks} {K : Kernel} {n : Nat} {d : Dict} {g : AGate}
+    (h : trig q g = false) : gateStep q K n d g = gateStep Quirks.none K n d g := by
+  unfold trig at h
+  unfold gateStep
+  cases hc : g.cls <;> simp_all [Quirks.none]
+  all_goals (split <;> try rfl)
+  all_goals (split <;> try rfl)
+  all_goals (cases hq : q.mctrlXSplits <;> simp_all)
+
+theorem runSection_congr {q : Quirks} {K : Kernel} {n : Nat} (gs : List AGate) {d : Dict}
+    (h : ∀ g ∈ gs, trig q g = false) : runSection q K n d gs = runSection Quirks.none K n d gs := by
+  induction gs generalizing d with
+  | nil => rfl
+  | cons g gs ih =>
+    simp only [runSection]
+    rw [gateStep_congr (h g (by simp))]
+    split
+    · exact ih (fun x hx => h x (List.mem_cons_of_mem _ hx))
+    · rfl
+
+theorem expsOfSection_congr {q : Quirks} {K : Kernel} {n : Nat} (gs : List AGate)
+    (h : ∀ g ∈ gs, trig q g = false) : expsOfSection q K n gs = expsOfSection Quirks.none K n gs := by
+  unfold expsOfSection; rw [runSection_congr gs h]
+
+theorem go_congr {q : Quirks} {K : Kernel} {n : Nat} (rest : List AGate) :
+    ∀ (i : Nat) (prev : Option AGate) (cur : List AGate) (start : Option Nat),
+      (∀ g ∈ cur, trig q g = false) → (∀ g ∈ rest, trig q g = false) →
+      go q K n i prev cur start rest = go Quirks.none K n i prev cur start rest := by
+  induction rest with
+  | nil =>
+    intro i prev cur start hc _
+    simp only [go]
+    rw [expsOfSection_congr cur hc]
+  | cons g rest ih =>
+    intro i prev cur start hc hr
+    have hg := hr g (by simp)
+    have hr' : ∀ x ∈ rest, trig q x = false := fun x hx => hr x (List.mem_cons_of_mem _ hx)
+    simp only [go]
+    rw [isZB_congr hg, expsOfSection_congr cur hc]
+    rw [ih (i + 1) (some g) (cur ++ [g]) _ (by
+      intro x hx
+      rcases List.mem_append.mp hx with hx | hx
+      · exact hc x hx
+      · simp only [List.mem_singleton] at hx; subst hx; exact hg) hr']
+    rw [ih (i + 1) (some g) cur start hc hr']
+    rw [ih (i + 1) (some g) [] start (by simp) hr']
+    rw [ih (i + 1) (some g) [] none (by simp) hr']
+
+/-- on circuits that do not run into a listed defect, the code as it is behaves as the repaired
+code -/
+theorem decompile_congr (q : Quirks) (K : Kernel) (n : Nat) (gs : List AGate)
+    (h : triggers q gs = false) : decompile q K n gs = decompile Quirks.none K n gs := by
+  rw [triggers_eq] at h
+  exact go_congr gs 0 none [] none (by simp) (fun g hg => by
+    have := List.any_eq_false.mp h g hg
+    simpa using this)
+
+/-! ## the repaired model never raises on well-formed circuits -/
+
+/-- a gate tuple as `QCircuit.append` builds it on an `n`-qubit circuit -/
+def WF (n : Nat) (g : AGate) : Prop := (∀ i ∈ g.wires, i < n) ∧ g.wires.length = g.cls.nQubits
+
+theorem gateStep_ok {K : Kernel} {n : Nat} {d : Dict} {g : AGate} (hw : WF n g)
+    (hz : isZB Quirks.none g.cls = true) : ∃ d', gateStep Quirks.none K n d g = .ok d' := by
+  have hf : g.wires.find? (fun i => decide (n ≤ i)) = none := by
+    rw [List.find?_eq_none]; intro i hi; simpa using hw.1 i hi
+  have ha : (g.wires.length != g.cls.nQubits) = false := by simp [hw.2]
+  unfold gateStep
+  rw [hf]; simp only [ha]
+  rw [isZB_eq] at hz
+  cases hc : g.cls <;> simp_all [Quirks.none]
+  all_goals (cases g.wires.getLast? <;> simp)
+
+theorem runSection_ok {K : Kernel} {n : Nat} (gs : List AGate) {d : Dict}
+    (h : ∀ g ∈ gs, WF n g ∧ isZB Quirks.none g.cls = true) :
+    ∃ d', runSection Quirks.none K n d gs = .ok d' := by
+  induction gs generalizing d with
+  | nil => exact ⟨d, rfl⟩
+  | cons g gs ih =>
+    obtain ⟨d1, h1⟩ := gateStep_ok (K := K) (d := d) (h g (by simp)).1 (h g (by simp)).2
+    simp only [runSection, h1]
+    exact ih (fun x hx => h x (List.mem_cons_of_mem _ hx))
+
+theorem expsOfSection_ok {K : Kernel} {n : Nat} (gs : List AGate)
+    (h : ∀ g ∈ gs, WF n g ∧ isZB Quirks.none g.cls = true) :
+    ∃ e, expsOfSection Quirks.none K n gs = .ok e := by
+  obtain ⟨d, hd⟩ := runSection_ok (K := K) (d := []) gs h
+  exact ⟨dropIdentities d, by simp [expsOfSection, hd]⟩
+
+theorem go_ok {K : Kernel} {n : Nat} (rest : List AGate) :
+    ∀ (i : Nat) (prev : Option AGate) (cur : List AGate) (start : Option Nat),
+      (∀ g ∈ cur, WF n g ∧ isZB Quirks.none g.cls = true) → (∀ g ∈ rest, WF n g) →
+      ∃ secs, go Quirks.none K n i prev cur start rest = .ok secs := by
+  induction rest with
+  | nil =>
+    intro i prev cur start hc _
+    obtain ⟨e, he⟩ := expsOfSection_ok (K := K) cur hc
+    simp only [go, he]
+    split <;> exact ⟨_, rfl⟩
+  | cons g rest ih =>
+    intro i prev cur start hc hr
+    have hr' : ∀ x ∈ rest, WF n x := fun x hx => hr x (List.mem_cons_of_mem _ hx)
+    obtain ⟨e, he⟩ := expsOfSection_ok (K := K) cur hc
+    simp only [go, he]
+    split
+    · next hz =>
+      exact ih _ _ _ _ (by
+        intro x hx
+        rcases List.mem_append.mp hx with hx | hx
+        · exact hc x hx
+        · simp only [List.mem_singleton] at hx; subst hx; exact ⟨hr x (by simp), hz⟩) hr'
+    · split
+      · exact ih _ _ _ _ hc hr'
+      · split
+        · exact ih _ _ _ _ (by simp) hr'
+        · obtain ⟨r, hr2⟩ := ih (i + 1) (some g) [] none (by simp) hr'
+          simp only [hr2]
+          exact ⟨_, rfl⟩
+
+/-- the repaired model reports sections for every circuit built through `QCircuit.append` -/
+theorem decompile_ok (K : Kernel) (n : Nat) (gs : List AGate) (h : ∀ g ∈ gs, WF n g) :
+    ∃ secs, decompile Quirks.none K n gs = .ok secs :=
+  go_ok gs 0 none [] none (by simp) h
+
 end QV.Decompiler
